@@ -263,7 +263,7 @@ package nbio
 //@   at call:Sendfile#1 ghost { c.gHead = c.gHead + ite(written > 0, written, 0) }
 //@   at call:releaseToWrite#1 ghost { c.gSeq0 = c.gSeq0 + 1 }
 //@   loop 1
-//@     invariant holds(c.mux) && !c.closed && Wired(c) && isStream(c) && QueueInv(c) && c.gAcc == kSent[c.fd] + pend(c)
+//@     invariant holds(c.mux) && !c.closed && !c.gClosedAtLock && !c.gFlipDone && !c.gTok && Wired(c) && isStream(c) && QueueInv(c) && c.gAcc == kSent[c.fd] + pend(c)
 //@     invariant v != nil && (v.remain > 0 ==> len(c.writeList) > 0 && c.writeList[0] == v && v.buf == nil)
 //@     decreases v.remain
 
@@ -278,7 +278,7 @@ package nbio
 //@   at lock#1 ghost { c.gMods0 = kMods[c.fd]; c.gSawQ = !c.closed && len(c.writeList) > 0 && kEv[c.fd] >= 0 }
 //@   at before:closeWithErrorWithoutLock#1 ghost { c.gTok = !c.gClosedAtLock && c.closed && !c.gFlipDone; c.gFlipDone = true }
 //@   loop 1
-//@     invariant holds(c.mux) && !c.closed && !c.gClosedAtLock && Wired(c) && isStream(c) && QueueInv(c) && c.gAcc == kSent[c.fd] + pend(c)
+//@     invariant holds(c.mux) && !c.closed && !c.gClosedAtLock && !c.gFlipDone && !c.gTok && Wired(c) && isStream(c) && QueueInv(c) && c.gAcc == kSent[c.fd] + pend(c)
 //@     invariant maxw(c) > 0 ==> c.left <= maxw(c)
 //@     invariant ArmInv(c) && kMods[c.fd] == c.gMods0 && (c.gSawQ ==> kEv[c.fd] >= 0 && c.isWAdded)
 
@@ -315,7 +315,7 @@ package nbio
 //@   at call:Sendfile#1 ghost { c.gAcc = c.gAcc + ite(written > 0, written, 0) }
 //@   at call:newToWriteFile#2 ghost { c.gAcc = c.gAcc + remain }
 //@   loop 1
-//@     invariant holds(c.mux) && !c.closed && Wired(c) && isStream(c) && QueueInv(c) && c.gAcc == kSent[c.fd] + pend(c)
+//@     invariant holds(c.mux) && !c.closed && !c.gClosedAtLock && !c.gFlipDone && !c.gTok && Wired(c) && isStream(c) && QueueInv(c) && c.gAcc == kSent[c.fd] + pend(c)
 //@     invariant dst == c.fd && remain >= 0 && total - remain == c.gAcc - c.gSnap && len(c.writeList) == 0
 //@     invariant maxw(c) > 0 ==> c.left <= maxw(c)
 
